@@ -15,6 +15,7 @@ import (
 	"seehuhn.de/go/pdf/font"
 	"seehuhn.de/go/pdf/font/textextract"
 	"seehuhn.de/go/pdf/graphics/extract"
+	"seehuhn.de/go/pdf/internal/limits"
 	"seehuhn.de/go/pdf/nametree"
 	"seehuhn.de/go/pdf/numtree"
 	"seehuhn.de/go/pdf/outline"
@@ -62,6 +63,7 @@ type walkStats struct {
 	StreamErrs   int // DecodeStream or Read failed
 	Drained      int64
 	DrainCapped  int
+	CCITTStreams int // streams drained whose filter chain ends in CCITTFaxDecode
 	DCTChains    int // streams drained whose filter chain has DCTDecode below another filter
 	PagesSeen    int
 	PagesDecoded int
@@ -304,6 +306,22 @@ func (w *walker) drainStream(r pdf.Getter, stm *pdf.Stream, ref pdf.Reference) {
 	if w.total >= totalDrainCap {
 		limit = smallStreamCap
 	}
+	// Output bound of an image decoder at the top of the chain.  CCITTFax
+	// data is one bit per pixel, and the library documents that a conforming
+	// image has at most limits.MaxImageHeight rows and limits.MaxImagePixels
+	// pixels (FilterCCITTFax.Decode clamps /Rows accordingly), so one stream
+	// yields at most MaxImagePixels/8 bytes plus less than one byte of
+	// padding per row.  More than that is an "explosion", whatever the clock
+	// or the heap samples say.  (The caps of the other image filters,
+	// limits.MaxImageBytes, lie above the 64 MiB the harness reads.)
+	outBound := int64(-1)
+	if filters, err := pdf.GetFilters(r, nil, stm.Dict); err == nil && len(filters) > 0 {
+		if _, ok := filters[len(filters)-1].(pdf.FilterCCITTFax); ok {
+			outBound = limits.MaxImagePixels/8 + limits.MaxImageHeight
+			limit = outBound + 1
+			st.CCITTStreams++
+		}
+	}
 	var n int64
 	zero := 0
 	for n < limit {
@@ -328,6 +346,10 @@ func (w *walker) drainStream(r pdf.Getter, stm *pdf.Stream, ref pdf.Reference) {
 			}
 			break
 		}
+	}
+	if outBound >= 0 && n > outBound && w.viol == nil {
+		w.viol = fmt.Errorf("explosion: stream %s (filter chain ending in CCITTFaxDecode) decoded to more than %d bytes, the bound which follows from limits.MaxImagePixels/8 + limits.MaxImageHeight",
+			ref, outBound)
 	}
 	if n >= limit {
 		st.DrainCapped++
